@@ -16,7 +16,7 @@ import (
 
 type options struct {
 	repo, verif, prop, tier, unit, dump string
-	list, updateRegistry, verbose     bool
+	list, updateRegistry, verbose, noEvidence bool
 	timeout                           time.Duration
 	seed                              int
 	workers                           int
@@ -33,6 +33,7 @@ func main() {
 	flag.BoolVar(&o.list, "list", false, "list units and obligations without solving")
 	flag.BoolVar(&o.updateRegistry, "update-registry", false, "rewrite contracts/registry.json for the property from this run")
 	flag.BoolVar(&o.verbose, "v", false, "verbose")
+	flag.BoolVar(&o.noEvidence, "noevidence", false, "do not write evidence/replay files (selftest runs)")
 	flag.IntVar(&o.workers, "workers", 6, "concurrent obligations")
 	flag.Parse()
 	if o.tier == "" {
